@@ -106,6 +106,20 @@ NEEDS = {
  "C17-E": "two modules whose labels coincide (same alias for two modules, or an alias equal to another module's full name)",
  "C17-F": "aliases with >= 2 entries in which the non-existent module is not the last key (error names the wrong module)",
 }
+def needs_from_notes(p):
+    """fallback for changes without a hand-written entry: the 'Needed to manifest' paragraph of the agent's notes"""
+    try:
+        t = open(os.path.join(p, "notes.md")).read()
+    except OSError:
+        return "see notes.md"
+    import re
+    m = re.search(r"Needed to manifest:?\**:?\s*(.+?)(?:\n\s*\n|\n\*\*|\nDemo|\Z)", t, re.S | re.I)
+    title = t.strip().split("\n")[0].lstrip("# ").strip()
+    if m:
+        return (title + " - needs: " + " ".join(m.group(1).split()))[:600]
+    return title
+
+
 only = sys.argv[1:]
 for d in sorted(os.listdir(os.path.join(V, "seeded"))):
     p = os.path.join(V, "seeded", d)
@@ -120,7 +134,7 @@ for d in sorted(os.listdir(os.path.join(V, "seeded"))):
     if res is None:
         print(d, "NO RESULT", r.stderr[-300:]); continue
     head = subprocess.run(["git", "-C", "/repo", "rev-parse", "--short", "HEAD"], capture_output=True, text=True).stdout.strip()
-    meta = {"property": prop, "needs_to_manifest": NEEDS.get(d, "see notes.md"),
+    meta = {"property": prop, "needs_to_manifest": NEEDS.get(d) or needs_from_notes(p),
             "validated_against_repo_head": head,
             "validation": {"demo_on_clean_tree_rc": res.get("demo_clean_rc"), "demo_with_patch_rc": res.get("demo_patched_rc"), "suite_with_patch": res.get("suite"), "valid": res.get("valid")},
             "what_was_run": f"tools/seedcheck.py seeded/{d} --props {prop}  (scratch worktree of /repo HEAD named pytestarch; demo on clean tree, patch applied, demo, full suite, ./check {prop} --tier quick with VERIF_REPO pointing at the patched worktree)",
